@@ -215,6 +215,9 @@ class GrammarSemantics(ModelBuilderSemantics):
             literal_eval(repr(value))
         keywords = tuple(flatten(ast.keywords)) or ()
 
+        if isinstance(directives.get('whitespace'), str):
+            # the string form of the directive is a regular expression too
+            self._validate_pattern(directives['whitespace'])
         if directives.get('whitespace') in {'None', 'False'}:
             # NOTE: use '' because None will _not_ override defaults in configuration
             directives['whitespace'] = ''
